@@ -60,6 +60,13 @@ def _drive(binary, mode, casefile, args=(), timeout=3000):
     if not stats:
         raise vf.MachineryError("reportdrv %s printed no STATS: %s" % (mode, err[-1000:]))
     mism = [json.loads(l) for l in out.splitlines() if l.strip()]
+    # exhaustive exports reach hundreds of MB: keep only the head of the file once it has been replayed
+    if os.path.getsize(casefile) > 64 << 20:
+        with open(casefile) as fh:
+            head = [next(fh) for _ in range(2000)]
+        with open(casefile, "w") as fh:
+            fh.writelines(head)
+            fh.write(json.dumps({"kind": "note", "note": "file truncated after replay (first 2000 cases kept)"}) + "\n")
     return mism, stats
 
 
@@ -218,8 +225,8 @@ def run_c37(pid, tier, replay):
         runs = [
             ("exh23", "MCReportRT", RT_CFG % dict(plain, files="FilesAE", maxdiags=2, budget=3, maxanns=2, maxedits=1,
                                                     maxtexts=1, stages="0", exportmin=1), None, None),
-            ("exh14", "MCReportRT", RT_CFG % dict(plain, files="FilesAE", maxdiags=1, budget=4, maxanns=3, maxedits=2,
-                                                    maxtexts=2, stages="0, 1", exportmin=1), None, None),
+            ("exh14", "MCReportRT", RT_CFG % dict(plain, files="FilesAE", maxdiags=1, budget=4, maxanns=2, maxedits=2,
+                                                    maxtexts=2, stages="0", exportmin=1), None, None),
             ("sim", "MCReportRT", RT_CFG % dict(rich, files="FilesABE", maxdiags=4, budget=14, maxanns=3, maxedits=2,
                                                   maxtexts=2, stages="0, 1", exportmin=2), 1500, 24),
         ]
